@@ -43,7 +43,7 @@ func (r *round1) Start() *Error {
 	idList := make([]string, 0)
 	for id, msg := range r.futureMessages {
 		idList = append(idList, id)
-		if err := r.Update(msg); err != nil {
+		if err := r.replay(msg); err != nil {
 			return err
 		}
 	}
@@ -55,6 +55,19 @@ func (r *round1) Start() *Error {
 
 	r.started = true
 	return nil
+}
+
+// replay hands one stored message to Update. A message that makes Update panic is dropped, as
+// baseParty.Update drops it when it arrives after the round has started: without this the panic left
+// Start half way, the remaining stored messages were never replayed and their ids stayed refused
+func (r *round1) replay(msg model.ConsensusMessage) (err *Error) {
+	defer func() {
+		if p := recover(); p != nil {
+			r.logger.Errorf("round1 replay: message dropped, id: %s, panic: %v", msg.GetMessageID(), p)
+			err = nil
+		}
+	}()
+	return r.Update(msg)
 }
 
 func (r *round1) Close() {
